@@ -129,6 +129,7 @@ func c17Doc(c *eng.Case) {
 }
 
 func c17Enumerate(tier string, emit func(*eng.Case)) {
+	emit = withDecor(decorEvery(tier), emit)
 	for fi := range c17Fams {
 		isPath := strings.HasPrefix(c17Fams[fi].name, "path")
 		for n := 2; n <= 12; n++ {
@@ -246,7 +247,7 @@ func init() {
 		Enumerate: c17Enumerate,
 		Check:     c17Check,
 		Bounds: func(tier string) map[string]any {
-			return map[string]any{"N": "2..12", "k": "1..N", "families": len(c17Fams), "markup_deviations": map[string]any{"quick": 1, "thorough": "full product"}[tier]}
+			return map[string]any{"decorated_variants": decorBound(tier), "N": "2..12", "k": "1..N", "families": len(c17Fams), "markup_deviations": map[string]any{"quick": 1, "thorough": "full product"}[tier]}
 		},
 		Assumptions: []string{"page-1 link carries the page parameter like all others (the statement's 'all follow one URL pattern')"},
 	})
